@@ -557,6 +557,102 @@ def counts_down_from_len(f, bi, idx, ln):
     return "index %s starts at the length of the indexed slice, only counts down, and is decremented in front of the access in every iteration" % sy.show(idx)[:30]
 
 
+# ---- R11: an advance by X + c passes over bytes that were looked at ---------------------------------------------
+def run_r11(ctx, rule):
+    """`advance(n)` panics when n exceeds the buffered data, and input can end anywhere.  The scanners of flussab::text
+    return offsets behind bytes they looked at (C16-R3, C13-R3); what the token functions add on top is a constant:
+    `advance(1)` behind a byte test, `advance(offset + 1)` behind the line feed found at `offset`, a scan started at a
+    constant offset.  Decided per site: with the amount written as X + c (scanner calls peeled down to their start
+    offset, c a positive constant), each of the c bytes at X, X+1, .. was answered `Some` by a look-ahead on the way
+    (discriminant / payload / is_some / is_none tests, `== Some(b)`, or a literal matched by `fixed` at offset 0), and
+    a variable X was not changed since."""
+    from .c10 import strip_bb
+    facts = ctx.facts
+    DRp = "flussab::deferred_reader::DeferredReader::"
+    n_sites = n_plus = 0
+    for fid, fn in sorted(facts.fns.items()):
+        if fn.crate in ("ext", "promoted") or norm(fid).startswith("flussab::deferred_reader"):
+            continue
+        sy = sym(fn)
+        for bb, t in fn.calls():
+            cn = norm(util.cname(t))
+            if cn not in (DRp + "advance", DRp + "advance_with_buf") or len(t["args"]) < 2:
+                continue
+            n_sites += 1
+            e = sy.operand(t["args"][1])
+            # peel scanner calls down to the offset they were started at
+            for _ in range(6):
+                while e[0] == "cast":
+                    e = e[2]
+                if e[0] == "f" and e[2] == "1" and e[1][0] == "call" and norm(e[1][2]).startswith("flussab::text::") and len(e[1][3]) > 1:
+                    e = e[1][3][1]
+                    continue
+                if e[0] == "call" and norm(e[2]).startswith("flussab::text::") and not norm(e[2]).startswith("flussab::text::LineReader") and len(e[3]) > 1:
+                    e = e[3][1]
+                    continue
+                break
+            X, c = e, 0
+            if e[0] == "c" and isinstance(e[1], int):
+                X, c = None, e[1]
+            elif e[0] in ("bin", "ovf") and e[1].replace("WithOverflow", "").replace("Unchecked", "") == "Add":
+                if e[3][0] == "c" and isinstance(e[3][1], int):
+                    X, c = e[2], e[3][1]
+                elif e[2][0] == "c" and isinstance(e[2][1], int):
+                    X, c = e[3], e[2][1]
+            if c <= 0 or c > 16:
+                continue
+            n_plus += 1
+            key = "%s/advance-over-examined/%s" % (norm(fid), (sy.show(X).replace(" ", "") + "+" if X is not None else "") + str(c))
+            examined = {}
+            for sb, fa in guards.decision_facts(fn, bb):
+                look = None
+                some = False
+                if fa[0] == "eq" and fa[1][0] == "discr" and fa[1][1][0] == "call" and str(fa[1][2]).endswith("Option"):
+                    look, some = fa[1][1], fa[2] == 1
+                elif fa[0] in ("eq", "in") and fa[1][0] == "f" and fa[1][1][0] == "v" and fa[1][1][2] == "Some" and fa[1][1][1][0] == "call":
+                    look, some = fa[1][1][1], True
+                elif fa[0] == "bool" and fa[1][0] == "call" and fa[1][3] and fa[1][3][0][0] == "call":
+                    m = norm(fa[1][2]).rsplit("::", 1)[-1]
+                    if m == "is_some":
+                        look, some = fa[1][3][0], fa[2] is True
+                    elif m == "is_none":
+                        look, some = fa[1][3][0], fa[2] is False
+                    elif m in ("eq", "ne") and len(fa[1][3]) == 2:
+                        for x, y in (fa[1][3], fa[1][3][::-1]):
+                            if x[0] == "call" and y[0] == "agg" and y[2] == "Some":
+                                look, some = x, (fa[2] is True) == (m == "eq")
+                elif fa[0] == "cmp" and fa[1] == "Ne" and fa[2][0] == "call" and norm(fa[2][2]) == "flussab::text::fixed" and fa[3] == ("c", 0) and X is None:
+                    args = fa[2][3]
+                    lit = args[2] if len(args) > 2 else None
+                    while lit is not None and lit[0] == "cast":
+                        lit = lit[2]
+                    if len(args) > 2 and args[1] == ("c", 0) and lit is not None and lit[0] == "cb":
+                        for j in range(len(lit[1])):
+                            examined[("c", j)] = sb
+                if look is None or not some:
+                    continue
+                ln = norm(look[2])
+                if ln == DRp + "request_byte":
+                    examined[("c", 0)] = sb
+                elif ln == DRp + "request_byte_at_offset" and len(look[3]) > 1:
+                    examined[strip_bb(look[3][1])] = sb
+            missing = []
+            for j in range(c):
+                if X is None:
+                    want = ("c", j)
+                else:
+                    want = strip_bb(X) if j == 0 else ("bin", "Add", strip_bb(X), ("c", j))
+                sb = examined.get(want)
+                if sb is None:
+                    missing.append(j)
+                elif X is not None and X[0] == "l" and not guards.fresh_since(fn, X[1], sb, bb):
+                    missing.append(j)
+            rule.check(not missing, key, "%s advances by %s%d over bytes that a look-ahead answered on the way%s" % (short(norm(fid)), (sy.show(X) + " + ") if X is not None else "", c, "" if not missing else ": nothing shows that the byte at +%s was there (the input may end in front of it, and advance then panics)" % missing), fn.loc(bb))
+    rule.note("advance_sites", n_sites)
+    if n_plus < 8:
+        rule.bad("advance/sites", "only %d advance sites with a constant part found (8 confirmed by hand)" % n_plus, kind="anchor-missing")
+
+
 def run_r4(ctx, rule, tn):
     from .c05 import in_scope
     facts = ctx.facts
